@@ -444,6 +444,55 @@ func ruleStatusIffFailed(c *Ctx, rule string) {
 			continue
 		}
 		n++
+		if h := al.Parent(); h != pu && rootFn(h) != pu {
+			// the conversion lives in a helper called with the handler error: decide the equivalence inside
+			// the helper on its parameter, and the call's position in processUnaryRpc
+			var call *ssa.Call
+			k := -1
+			for _, ci := range p.callsToFn(pu, h) {
+				for ai, a := range ci.Common().Args {
+					if p.sameValue(a, errV) || p.lpath(a) == errPath {
+						if cl, ok := ci.(*ssa.Call); ok {
+							call, k = cl, ai
+						}
+					}
+				}
+			}
+			if call == nil || k >= len(h.Params) {
+				c.check(rule, "processUnaryRpc:status⇒handler-error", false, "the status is built by "+p.fnKey(h)+" but it is not called with the handler's error", p.ipos(al))
+				continue
+			}
+			pp := "p:" + canonParam(h.Params[k])
+			fs := p.Facts(al)
+			c.check(rule, "processUnaryRpc:status⇒handler-error", fs.NonNil(pp), "a status is built only when the error passed in is non-nil: "+fs.String(), p.ipos(al))
+			badH := p.mustPassUnless(h.Blocks[0].Instrs[0], func(i ssa.Instruction) bool { return i == ssa.Instruction(al) }, func(ifi *ssa.If, succ int) bool {
+				for _, a := range p.factsOf(h).atomsOf(ifi.Cond, succ == 0, map[*ssa.BasicBlock]AtomSet{}, 0) {
+					if a == atom("isnil", pp) {
+						return true
+					}
+				}
+				return false
+			})
+			onlyAlloc := true
+			for _, t := range p.Origins().Of(ssa.Value(call)) {
+				if t.Op == "const" && t.Name == "nil" {
+					continue
+				}
+				if t.Op != "alloc" || p.Origins().allocs[t.Name] != ssa.Value(al) {
+					onlyAlloc = false
+				}
+			}
+			badC := p.mustPassUnless(hcall, func(i ssa.Instruction) bool { return i == ssa.Instruction(call) }, func(ifi *ssa.If, succ int) bool {
+				for _, a := range p.factsOf(pu).atomsOf(ifi.Cond, succ == 0, map[*ssa.BasicBlock]AtomSet{}, 0) {
+					if a == atom("isnil", errPath) {
+						return true
+					}
+				}
+				return false
+			})
+			c.check(rule, "processUnaryRpc:handler-error⇒status", badH == nil && badC == nil && onlyAlloc, "every path with a non-nil handler error reaches the conversion helper, which returns a status unless its argument is nil", p.ipos(call))
+			continue
+		}
 		fs := p.Facts(al)
 		c.check(rule, "processUnaryRpc:status⇒handler-error", fs.NonNil(errPath), "a status is attached only when the handler returned an error: "+fs.String(), p.ipos(al))
 		// converse: from the handler's return, every path to the exit either attaches the status or runs
@@ -480,7 +529,15 @@ func ruleErrorToStatusSiblings(c *Ctx, rule string) {
 	p := c.p
 	pu := p.MustFn("goat.handler.processUnaryRpc")
 	st := p.MustFn("server.serverStream.SendTrailer")
-	c.check(rule, "processUnaryRpc:FromError", len(p.callsTo(pu, "grpc/status.FromError", false)) == 1, "unary error→status goes through status.FromError", p.pos(pu.Pos()))
+	nfe := len(p.callsTo(pu, "grpc/status.FromError", false))
+	seenH := map[*ssa.Function]bool{pu: true}
+	for _, t := range p.envelopeIn("goat.handler.processUnaryRpc").Fields["Status"].Origins {
+		if al, ok := p.Origins().allocs[t.Name].(*ssa.Alloc); ok && t.Op == "alloc" && !seenH[al.Parent()] {
+			seenH[al.Parent()] = true
+			nfe += len(p.callsTo(al.Parent(), "grpc/status.FromError", false))
+		}
+	}
+	c.check(rule, "processUnaryRpc:FromError", nfe == 1, "unary error→status goes through status.FromError", p.pos(pu.Pos()))
 	c.check(rule, "SendTrailer:FromError", len(p.callsTo(st, "grpc/status.FromError", false)) == 1, "stream error→status goes through status.FromError", p.pos(st.Pos()))
 	// FromError's argument is the error being converted
 	for _, ci := range p.callsTo(st, "grpc/status.FromError", false) {
